@@ -654,7 +654,7 @@ class HexagonProfile(Profile):
             diagonal = side * 2
         elif diagonal is not None and side is None and height is None:
             side = diagonal / 2
-            height = side / np.sqrt(3)
+            height = side * np.sqrt(3)
         elif height is not None and side is None and diagonal is None:
             side = height / np.sqrt(3)
             diagonal = side * 2
@@ -679,7 +679,7 @@ class HexagonProfile(Profile):
                     (-1 / 2, -np.sqrt(3) / 2),
                 ]
             )
-            * (side, side)
+            * (side - 2 * corner_radius / np.sqrt(3))
         )
         polygon = Polygon(line)
         polygon = polygon.buffer(corner_radius)
